@@ -31,12 +31,18 @@ func capitalizeFirst(s string) string {
 
 // EvaluateExpression evaluates an expression and returns its value
 func (i *Interpreter) EvaluateExpression(expr Expr, env *Environment) (interface{}, error) {
-	depth := atomic.AddInt64(&i.evalDepth, 1)
+	// The recursion budget belongs to the evaluation the scope is part of, not
+	// to the interpreter, which is shared by all requests in flight.
+	counter := &i.evalDepth
+	if env != nil && env.depth != nil {
+		counter = env.depth
+	}
+	depth := atomic.AddInt64(counter, 1)
 	if depth > maxEvalDepth {
-		atomic.AddInt64(&i.evalDepth, -1)
+		atomic.AddInt64(counter, -1)
 		return nil, fmt.Errorf("maximum evaluation depth exceeded (%d levels)", maxEvalDepth)
 	}
-	defer atomic.AddInt64(&i.evalDepth, -1)
+	defer atomic.AddInt64(counter, -1)
 	switch e := expr.(type) {
 	case LiteralExpr:
 		return i.evaluateLiteral(e.Value)
